@@ -20,6 +20,9 @@ pub fn run(k: &str, a: &Value) -> Option<Value> {
             let pairs: Vec<[u32; 2]> = a["pairs"].as_array().unwrap().iter().map(|p| { let q = p.as_array().unwrap(); [q[0].as_u64().unwrap() as u32, q[1].as_u64().unwrap() as u32] }).collect();
             json!(engeom::common::indices::chained_indices(&pairs))
         }
+        #[cfg(not(feature = "hooks"))]
+        "identify_edges" => json!({"hooks_unavailable": true}),
+        #[cfg(feature = "hooks")]
         "identify_edges" => {
             let fs = faces(&a["faces"]);
             match engeom::verif_hooks::edges::verif_identify_edges(&fs) {
@@ -36,6 +39,9 @@ pub fn run(k: &str, a: &Value) -> Option<Value> {
             let r = engeom::raster3::clusters_from_sparse(set);
             json!(r.iter().map(|c| c.iter().map(|v| vec![v.0, v.1, v.2]).collect::<Vec<_>>()).collect::<Vec<_>>())
         }
+        #[cfg(not(feature = "hooks"))]
+        "box_geom" => json!({"hooks_unavailable": true}),
+        #[cfg(feature = "hooks")]
         "box_geom" => {
             let (v, fcs) = engeom::verif_hooks::box_geom(f(&a["w"]), f(&a["h"]), f(&a["d"]));
             json!({"vertices": v.iter().map(|p| vec![p.x, p.y, p.z]).collect::<Vec<_>>(), "faces": fcs})
